@@ -622,8 +622,12 @@ def writable_array(obj, **kwargs):
         arr = np.asarray(obj, **kwargs)
         yield arr
     finally:
-        if arr is not None:
-            obj[:] = arr
+        if arr is not None and arr is not obj:
+            if isinstance(obj, np.ndarray):
+                # Also valid for zero-dimensional arrays
+                obj[...] = arr
+            else:
+                obj[:] = arr
 
 
 def signature_string(posargs, optargs, sep=', ', mod='!r'):
